@@ -158,7 +158,7 @@ class DampedOscillationMegacomplex(Megacomplex):
             phase,
         )
 
-        if index_dependent(dataset_model):
+        if len(dataset.matrix.shape) == 3:
             dataset[f"{prefix}_sin"] = (
                 (
                     global_dimension,
